@@ -40,7 +40,7 @@ sreadMM(FILE *fp, int *m, int *n, int_t *nonz,
     int_t    *asub, *xa;
     int      *row, *col;
     int    zero_base = 0;
-    char *p, line[512], banner[64], mtx[64], crd[64], arith[64], sym[64];
+    char *p, line[1026], banner[64], mtx[64], crd[64], arith[64], sym[64];
     int expand;
 
     /* 	File format:
@@ -53,7 +53,7 @@ sreadMM(FILE *fp, int *m, int *n, int_t *nonz,
      */
 
      /* 1/ read header */ 
-     fgets(line,512,fp);
+     fgets(line,1026,fp);
      for (p=line; *p!='\0'; *p=tolower(*p),p++);
 
      if (sscanf(line, "%s %s %s %s %s", banner, mtx, crd, arith, sym) != 5) {
@@ -98,8 +98,8 @@ sreadMM(FILE *fp, int *m, int *n, int_t *nonz,
 
      /* 2/ Skip comments */
      while(banner[0]=='%') {
-       fgets(line,512,fp);
-       sscanf(line,"%s",banner);
+       fgets(line,1026,fp);
+       sscanf(line,"%63s",banner);
      }
 
      /* 3/ Read n and nnz */
